@@ -58,8 +58,14 @@ def progress(ctx):
     loops = _loops(f)
     ctx.need(len(loops) == 1, "_fill_buffer has %d while loops (one declared variant)" % len(loops))
     lp = loops[0]
+    ctx.check(unparse(lp.test) in ("self._buffer_offset == len(self._buffer)", "len(self._buffer) == self._buffer_offset", "len(self._buffer) <= self._buffer_offset"), lp,
+              "the refill loop runs exactly while the buffer is exhausted (offset == len)", "the refill loop runs while `%s`: unread bytes are overwritten, or an empty buffer is reported as data" % unparse(lp.test))
+    rt = [r for r in nodes_of_type(f, ast.Return) if is_const(r.value, True)]
+    ctx.check(bool(rt) and all(not in_block(r, lp.body) for r in rt), rt[0] if rt else f, "'data available' is answered only after the loop condition became false")
     dec = [c for c in calls_in(lp) if call_name(c) == "self._decompressor.decompress"]
-    ctx.need(dec and dec[0].args, "_fill_buffer no longer feeds self._decompressor.decompress")
+    if not (dec and dec[0].args):
+        ctx.bad(lp, "the refill loop no longer feeds the block it read to self._decompressor.decompress", key="%s::%s._fill_buffer::decompress" % (CP, Z))
+        return
     blk = dotted(dec[0].args[0])
     defs = [a for s in lp.body for a in walk_local(s) if isinstance(a, ast.Assign) and blk in stores_to(a)]
     ctx.need(defs, "input block of decompress() is not assigned in the loop")
@@ -190,6 +196,24 @@ def eof_not_data(ctx):
     g = cfg_of(f)
     lp = _loops(f)
     ctx.check(bool(rets) and bool(lp), rets[0] if rets else f, "True is only answered after the loop saw a non-empty buffer")
+    # every `raise EOFError` states a real end: end-of-stream marker seen, or an empty read of the underlying file
+    for r in [x for x in nodes_of_type(f, ast.Raise) if x.exc is not None and (dotted(x.exc) == "EOFError" or call_name(x.exc) == "EOFError")]:
+        facts = cond_facts([c_ for c_ in g.conditions_at(g.nodes_of(r)) if lp and in_block(c_[0], lp[0].body)])
+        ends = {("self._decompressor.eof", True), ("rawblock", False), ("rawblock == b''", True), ("len(rawblock) == 0", True)}
+        ok = len([f_ for f_ in facts if f_ in ends]) == 1 and all(f_ in ends or f_ == ("self._decompressor.eof", False) for f_ in facts)
+        ctx.check(ok, r, "EOFError is raised exactly on %s" % facts, "EOFError is raised under %s: a stream with data left is reported finished (or the end is never reported)" % facts)
+    dec_ = [a for a in nodes_of_type(f, ast.Assign) if "self._buffer" in stores_to(a) and isinstance(a.value, ast.Call) and call_name(a.value) == "self._decompressor.decompress"]
+    ctx.check(bool(dec_), dec_[0] if dec_ else f, "the refilled buffer is the decompressor's output for the block just read", "_fill_buffer no longer stores the decompressed block in the buffer")
+    # collected data is returned iff asked for
+    for q_ in ("_read_all", "_read_block"):
+        fn_ = ZF(ctx, q_)
+        g_ = cfg_of(fn_)
+        apps = [c for c in calls_in(fn_) if call_name(c) == "blocks.append"]
+        joins = [r for r in nodes_of_type(fn_, ast.Return) if isinstance(r.value, ast.Call) and call_attr(r.value) == "join"]
+        ctx.check(bool(apps) and bool(joins), apps[0] if apps else fn_, "%s collects the blocks and returns their concatenation" % q_, "%s no longer collects the blocks it reads (or no longer returns them)" % q_)
+        for x in apps + joins:
+            facts = [f_ for f_ in cond_facts(g_.conditions_at(g_.nodes_of(x))) if "return_data" in f_[0]]
+            ctx.check(facts == [("return_data", True)], x, "under return_data", "`%s` is executed under %s" % (unparse(x, 50), facts))
 
 
 # ---------------------------------------------------------------------------
@@ -208,6 +232,10 @@ def cursor(ctx):
             n += 1
             lo, hi = v.slice.lower, v.slice.upper
             st = [s for s in blk if isinstance(s, ast.Assign) and "self._buffer_offset" in stores_to(s)]
+            if lo is not None and st:
+                g_ = cfg_of(f)
+                ctx.check(not g_.path_exists(g_.nodes_of(st[0]), g_.nodes_of(a)), a, "the slice is taken from the current offset before the offset is advanced",
+                          "the offset is advanced before the slice [offset:end] is taken: the slice is empty and the bytes are lost")
             ctx.check(bool(st) and hi is not None and unparse(st[0].value) == unparse(hi), a, "the slice handed out ends where the new buffer offset is stored (%s)" % (unparse(hi) if hi else None),
                       "slice upper bound %s differs from the offset stored afterwards (%s): bytes are skipped or returned twice" % (unparse(hi) if hi else None, unparse(st[0].value) if st else "none"))
             if lo is not None:
@@ -233,6 +261,10 @@ def cursor(ctx):
             n += 1
             st = [s for s in blk if isinstance(s, ast.Assign) and "self._buffer" in stores_to(s) and const_value(s.value) == b""]
             ctx.check(bool(st), a, "a buffer consumed whole is replaced by b''", "the whole buffer is handed out but not emptied: it would be returned again")
+            if st:
+                g_ = cfg_of(f)
+                ctx.check(not g_.path_exists(g_.nodes_of(st[0]), g_.nodes_of(a), avoid=g_.nodes_of(_loops(f)[0]) if _loops(f) else ()), a, "the buffer is handed out before it is emptied",
+                          "the buffer is emptied before it is handed out: b'' is returned in place of the data")
     g = cfg_of(f)
     lpb = _loops(f)
     if lpb:
@@ -263,6 +295,12 @@ def cursor(ctx):
               "_read_all re-bases the buffer without resetting the offset: when offset == remaining length the unread bytes are taken for consumed")
     app = [c for c in calls_in(ra) if call_name(c) == "blocks.append"]
     ctx.check(bool(app) and dotted(app[0].args[0]) == "self._buffer", app[0] if app else ra, "_read_all collects each whole buffer")
+    if app and lpa:
+        gra = cfg_of(ra)
+        clr_ = [a_ for a_ in lpa[0].body if isinstance(a_, ast.Assign) and "self._buffer" in stores_to(a_)]
+        pos_ = [a_ for a_ in lpa[0].body if isinstance(a_, ast.AugAssign) and dotted(a_.target) == "self._pos"]
+        ctx.check(bool(clr_) and not gra.path_exists(gra.nodes_of_all(clr_), list(gra.nodes_of(app[0])) + list(gra.nodes_of_all(pos_)), avoid=gra.nodes_of(lpa[0])), app[0],
+                  "the buffer is collected and counted before it is emptied", "_read_all empties the buffer before collecting / counting it")
     for fn in (f, ra):
         j = [r for r in nodes_of_type(fn, ast.Return) if isinstance(r.value, ast.Call) and unparse(r.value) == "b''.join(blocks)"]
         ctx.check(bool(j), j[0] if j else fn, "%s returns the concatenation of the collected blocks in order" % fn.name)
@@ -373,6 +411,20 @@ def whence(ctx):
             ctx.check(b.index(ra[0]) < b.index(st[0]), st[0], "before it is used")
 
 
+def _mode_test_value(t, mode):
+    """truth of a test on self._mode under self._mode == <mode constant>; None if the test is about something else"""
+    if isinstance(t, ast.UnaryOp) and isinstance(t.op, ast.Not):
+        v = _mode_test_value(t.operand, mode)
+        return None if v is None else (not v)
+    if isinstance(t, ast.Compare) and len(t.ops) == 1 and dotted(t.left) == "self._mode":
+        op, r = t.ops[0], t.comparators[0]
+        if isinstance(op, (ast.Eq, ast.NotEq)) and isinstance(r, ast.Name):
+            return (r.id == mode) == isinstance(op, ast.Eq)
+        if isinstance(op, (ast.In, ast.NotIn)) and isinstance(r, (ast.Tuple, ast.List, ast.Set)) and all(isinstance(e, ast.Name) for e in r.elts):
+            return (mode in [e.id for e in r.elts]) == isinstance(op, ast.In)
+    return None
+
+
 def flush(ctx):
     w = ZF(ctx, "write")
     g = cfg_of(w)
@@ -396,6 +448,15 @@ def flush(ctx):
                   "the final flush is additionally conditioned on %s: some streams are left without their end marker" % extra)
         ctx.check(all(gc_.path_exists(gc_.nodes_of(x), gc_.nodes_of(y)) and not gc_.path_exists(gc_.nodes_of(y), gc_.nodes_of(x)) for y in cl + forget), x, "before the underlying file is closed / forgotten",
                   "the final block is written after the underlying file was closed")
+    fc_ = [a for a in assigns_to(c, "self._compressor") if is_const(a.value, None)]
+    ctx.check(all(not gc_.path_exists(gc_.nodes_of(a), gc_.nodes_of_all(fl)) for a in fc_), fc_[0] if fc_ else c, "the compressor is forgotten only after its final block was obtained",
+              "the compressor is dropped before flush() is called on it")
+    for x in fl:
+        # the final block is written exactly in write mode: evaluate every mode test guarding it
+        for (i_, t_, pol) in gc_.conditions_at(gc_.nodes_of(x)):
+            v = _mode_test_value(t_, "_MODE_WRITE")
+            if v is not None:
+                ctx.check(v == pol, x, "guard `%s` is %s in write mode" % (unparse(t_), pol), "the final flush sits on the %s branch of `%s`, which write mode never takes: no stream is ever terminated" % (pol, unparse(t_)))
     tr = [t for t in nodes_of_type(c, ast.Try) if t.finalbody]
     md = [a for t in tr for s in t.finalbody for a in walk_local(s) if isinstance(a, ast.Assign) and "self._mode" in stores_to(a) and dotted(a.value) == "_MODE_CLOSED"]
     ctx.check(bool(md), md[0] if md else c, "the mode becomes CLOSED in a finally block")
@@ -468,6 +529,27 @@ def guards(ctx):
             ctx.check(dotted(c.args[0]) == "size", c, "read(n) reads a block of n")
     z = [n for n in nodes_of_type(r, ast.If) if unparse(n.test) == "size == 0"]
     ctx.check(bool(z) and isinstance(z[0].body[-1], ast.Return) and const_value(z[0].body[-1].value) == b"", z[0] if z else r, "read(0) returns b''", "read(0) does not return b''")
+    def default_of(fn, name):
+        a = fn.args
+        pos = a.posonlyargs + a.args
+        for p_, d_ in zip(pos[len(pos) - len(a.defaults):], a.defaults):
+            if p_.arg == name:
+                return d_
+        return None
+    dsz = default_of(r, r.args.args[1].arg) if len(r.args.args) > 1 else None
+    ctx.check(dsz is not None and isinstance(const_value(dsz), int) and const_value(dsz) < 0, r, "read() without a size reads everything (default size is negative)", "read()'s default size is %s" % (unparse(dsz) if dsz is not None else "missing"))
+    for q_ in ("_read_all", "_read_block"):
+        fn_ = ZF(ctx, q_)
+        d_ = default_of(fn_, "return_data")
+        ctx.check(d_ is not None and is_const(d_, True), fn_, "%s returns the data unless told otherwise (read() relies on the default)" % q_, "%s(return_data=%s): read() gets None" % (q_, unparse(d_) if d_ is not None else "?"))
+    sk_ = ZF(ctx, "seek")
+    dw = default_of(sk_, "whence")
+    ctx.check(dw is not None and const_value(dw) == 0, sk_, "seek() is absolute by default (whence=0)", "seek()'s default whence is %s" % (unparse(dw) if dw is not None else "missing"))
+    init_ = ZF(ctx, "__init__")
+    for nm_ in ("__init__", "_rewind"):
+        fn_ = ZF(ctx, nm_)
+        z0 = [a_ for a_ in assigns_to(fn_, "self._buffer_offset")]
+        ctx.check(bool(z0) and all(is_const(a_.value, 0) for a_ in z0), z0[0] if z0 else fn_, "%s starts reading at offset 0 of an empty buffer" % nm_, "%s sets the buffer offset to %s" % (nm_, [unparse(a_.value) for a_ in z0]))
     disp = [c for c in calls_in(r) if call_name(c) in ("self._read_all", "self._read_block")]
     ctx.check(len(disp) == 2 and all(isinstance(parent(c), ast.Return) for c in disp), disp[0] if disp else r, "read returns what _read_all/_read_block produced", "read drops the bytes produced by _read_all/_read_block")
     cc = ctx.repo.func(CP, Z + "._check_can_read")
@@ -817,6 +899,28 @@ def mode_typestate(ctx):
         if "self._mode" in stores_to(a) and dotted(a.value) in ("_MODE_READ", "_MODE_WRITE"):
             want = "mode == 'rb'" if dotted(a.value) == "_MODE_READ" else "mode == 'wb'"
             ctx.check(cond_holds(gi.conditions_at(gi.nodes_of(a)), want, True), a, "%s iff %s" % (dotted(a.value), want))
+
+
+def mode_gates(ctx):
+    """the mode predicates and gates evaluated for each of the four mode constants (finite table, no execution)"""
+    MODES = ("_MODE_CLOSED", "_MODE_READ", "_MODE_READ_EOF", "_MODE_WRITE")
+    want_pred = {"closed": {"_MODE_CLOSED"}, "readable": {"_MODE_READ", "_MODE_READ_EOF"}, "writable": {"_MODE_WRITE"}}
+    for name, true_in in want_pred.items():
+        fn = ZF(ctx, name)
+        rets = [r for r in nodes_of_type(fn, ast.Return) if r.value is not None]
+        ok = len(rets) == 1 and all(_mode_test_value(rets[0].value, m) == (m in true_in) for m in MODES)
+        ctx.check(ok, rets[0] if rets else fn, "%s is true exactly in %s" % (name, sorted(true_in)), "%s returns `%s`, which is not true exactly in %s" % (name, unparse(rets[0].value) if rets else None, sorted(true_in)))
+    want_gate = {"_check_can_read": {"_MODE_READ", "_MODE_READ_EOF"}, "_check_can_write": {"_MODE_WRITE"}, "_check_can_seek": {"_MODE_READ", "_MODE_READ_EOF"}}
+    for name, pass_in in want_gate.items():
+        fn = ZF(ctx, name)
+        g = cfg_of(fn)
+        gate = [i for i in nodes_of_type(fn, ast.If) if _mode_test_value(i.test, "_MODE_READ") is not None]
+        ok = len(gate) == 1 and any(isinstance(x, ast.Raise) for x in gate[0].body) and all(_mode_test_value(gate[0].test, m) == (m not in pass_in) for m in MODES)
+        ctx.check(ok, gate[0] if gate else fn, "%s refuses every mode except %s" % (name, sorted(pass_in)), "%s does not raise exactly outside %s" % (name, sorted(pass_in)))
+    nc = ZF(ctx, "_check_not_closed")
+    t = [i for i in nodes_of_type(nc, ast.If) if unparse(i.test) == "self.closed"]
+    ctx.check(bool(t) and any(isinstance(x, ast.Raise) and call_name(x.exc) == "ValueError" for x in walk_local(t[0])) and isinstance(t[0].body[-1], ast.Raise), t[0] if t else nc,
+              "operations on a closed file raise ValueError", "_check_not_closed does not raise ValueError exactly when closed")
 
 
 def no_swallow(ctx):
